@@ -32,7 +32,9 @@ EXTENDS Integers, Sequences, FiniteSets, TLC
 
 CONSTANTS HalfBits,    \* bits in one half of a hash value
           LimbBits,    \* bits in one limb of a bloom word
-          Limbs        \* limbs per bloom word
+          Limbs,       \* limbs per bloom word
+          AssertPow2   \* TRUE: the loader asserts that the bloom word count is a power of two
+                       \* (glibc _dl_setup_hash); FALSE: a loader without that assertion (musl)
 
 Half == 2^HalfBits
 Limb == 2^LimbBits
@@ -69,8 +71,17 @@ ShrModC(h, s) ==
     LET f[k \in 0..LogC] == IF k = LogC THEN 0 ELSE HashBit(h, s + k) * 2^k + f[k + 1]
     IN f[0]
 
-(* (h / C) % m ; h / C < 2^(2*HalfBits) / C fits an int *)
-DivCModM(h, m) == (h[1] * (Half \div C) + (h[2] \div C)) % m
+(* h / C ; < 2^(2*HalfBits) / C, fits an int *)
+DivC(h) == h[1] * (Half \div C) + (h[2] \div C)
+(* (h / C) % m : how wild's writer picks the bloom word *)
+DivCModM(h, m) == DivC(h) % m
+
+(* bitwise and of two naturals *)
+RECURSIVE AndNat(_, _)
+AndNat(a, b) == IF a = 0 \/ b = 0 THEN 0 ELSE (a % 2) * (b % 2) + 2 * AndNat(a \div 2, b \div 2)
+(* (h / C) & (m - 1) : how the loader picks the bloom word (l_gnu_bitmask_idxbits = m - 1).  The two
+   agree exactly when m is a power of two.  m = 0 gives idxbits = 0xffffffff: the index is h / C. *)
+BloomWordIndex(h, m) == IF m = 0 THEN DivC(h) ELSE AndNat(DivC(h), m - 1)
 
 (* h % n.  Fast path when (n * Half) fits an int; otherwise Horner over the bits (n < 2^30). *)
 ModNFast(h, n) == ((h[1] % n) * Half + h[2]) % n
@@ -110,8 +121,11 @@ Found(i) == [st |-> "found", idx |-> i]
 Accept(sym, name, v) == sym.def /\ sym.name = name /\ (v = -1 \/ sym.ver = v)
 
 GnuBloomPass(G, h) ==
-    LET w == G.bloom[DivCModM(h, G.maskwords) + 1]
+    LET w == G.bloom[BloomWordIndex(h, G.maskwords) + 1]
     IN BloomBit(w, ModC(h)) = 1 /\ BloomBit(w, ShrModC(h, G.shift)) = 1
+
+(* _dl_setup_hash: assert ((bitmask_nwords & (bitmask_nwords - 1)) == 0) - zero passes it *)
+GnuSetupOK(G) == (G.present /\ ~G.malformed /\ G.nbuckets # 0) => (G.maskwords = 0 \/ IsPow2(G.maskwords))
 
 RECURSIVE GnuWalk(_, _, _, _, _)
 GnuWalk(T, name, h, v, i) ==
@@ -126,7 +140,8 @@ GnuWalk(T, name, h, v, i) ==
 GnuLookup(T, name, h, v) ==
     LET G == T.gnu IN
     IF ~G.present \/ G.nbuckets = 0 THEN None                 \* "if (map->l_nbuckets == 0) continue"
-    ELSE IF G.malformed \/ ~IsPow2(G.maskwords) THEN Fault     \* _dl_setup_hash asserts a power of two
+    ELSE IF G.malformed \/ (AssertPow2 /\ ~GnuSetupOK(G)) THEN Fault
+    ELSE IF BloomWordIndex(h, G.maskwords) >= Len(G.bloom) THEN Fault     \* bloom word outside the table
     ELSE IF ~GnuBloomPass(G, h) THEN None
     ELSE LET b == G.buckets[ModN(h, G.nbuckets) + 1] IN
          IF b = 0 THEN None ELSE GnuWalk(T, name, h, v, b)
